@@ -159,12 +159,25 @@ class ProjectedLinear(E2Contract):
         obj = lr.estimated_qoperation
         obj.set_mode_proj_order(order)
         want = obj.calc_proj_physical().to_var()
-        return dict(got=r.estimated_var, want=want, n=len(r.estimated_var_sequence), lin=lr.estimated_var)
+        # a sequence of two different datasets: every element is the projection of ITS OWN linear estimate
+        data2 = [(250, 1 - fj) for fj in inp["f"]]
+        rs = ple.calc_estimate_sequence(qt, [data, data2], is_computation_time_required=timed)
+        want_seq = []
+        for dd in (data, data2):
+            o = lin.calc_estimate(qt, dd).estimated_qoperation
+            o.set_mode_proj_order(order)
+            want_seq.append(o.calc_proj_physical().to_var())
+        return dict(got=r.estimated_var, want=want, n=len(r.estimated_var_sequence), lin=lr.estimated_var, got_seq=list(rs.estimated_var_sequence), want_seq=want_seq,
+                    got_objs=[stacked(W, q) for q in rs.estimated_qoperation_sequence],
+                    want_objs=[stacked(W, qt.convert_var_to_qoperation(v)) for v in want_seq])
 
     def post(self, W, cfg, inp, out):
         return [eq("projected-linear==projection-of-linear", out["got"], out["want"],
                    "the projected linear estimate is precisely to_var(calc_proj_physical(linear estimate)) in the estimator's projection order"),
-                eq("one-estimate-per-dataset", out["n"], 1, "one estimate per dataset")]
+                eq("one-estimate-per-dataset", out["n"], 1, "one estimate per dataset"),
+                eq("sequence-element==projection-of-its-own-linear-estimate", out["got_seq"], out["want_seq"],
+                   "every element of a sequence is the physical projection of the linear estimate of ITS dataset"),
+                eq("sequence-objects==objects-of-the-sequence-variables", out["got_objs"], out["want_objs"], "estimated_qoperation_sequence denotes the same estimates")]
 
     def canary(self, W, cfg, inp, out):
         return [eq("canary", out["got"], out["lin"], "(false) the projected linear estimate is the linear estimate")]
